@@ -187,7 +187,7 @@ NET_HRPS = ["bc", "tb", "bcrt", "ltc", "tltc", "grs", "tgrs", "btg", "vtc", "mon
 
 
 def hrps():
-    return st.one_of(st.sampled_from(NET_HRPS),
+    return st.one_of(st.sampled_from(NET_HRPS), st.sampled_from(["a1b", "ltc1test", "1", "11", "a1", "1a", "bc1", "b1c1d"]),
                      st.text(alphabet=HRP_CHARS, min_size=1, max_size=8),
                      st.text(alphabet=HRP_CHARS, min_size=1, max_size=83))
 
@@ -263,6 +263,18 @@ def o_bech32_triple(case):
     ref_up = refenc.segwit_decode(hrp, got.upper())
     if up != ref_up:
         _bad("bech32:uppercase", "decode of upper-case form %r -> %r, reference %r" % (got.upper(), up, ref_up))
+    # decoding under a *related* human-readable part - the part before one of its '1's, a prefix, an extension, the other
+    # case - must be refused: the separator is the LAST '1' of the string and the parts must be equal, not similar
+    related = {hrp[:-1], hrp + "1", hrp + "1" + hrp, hrp + "x", hrp[1:], "", hrp.upper()}
+    related |= {hrp[:i] for i, ch in enumerate(hrp) if ch == "1"}
+    for h2 in sorted(related):
+        if h2 == hrp:
+            continue
+        want2 = refenc.segwit_decode(h2, got)
+        got2 = _pyc_decode(h2, got)
+        if got2 != want2:
+            _bad("bech32:decoded-under-a-related-hrp", "decode(%r, %r) = %r, reference %r (the address was encoded for hrp %r)" % (
+                h2, got, got2, want2, hrp))
     t = ps.parse_bech32(got)
     h3, d3, spec3 = bech32m.bech32_decode(got)
     if t is None or t[0] != h3 or t[1] != ver or t[2] != prog or t[3] != spec3:
